@@ -17,7 +17,9 @@ CHECKS = {
             "(PROPERTY LCSpec in the MC_ configurations of DDM, EDDM, STEPD, ADWIN, CUSUM, PageHinkley, LFR, KdqDetector, HDM, PCACD - checked by TLC "
             "for all input sequences up to each module's bound). Conformance: lifecycle traces of all 15 real detector classes (several drifts back to "
             "back, user resets, refused calls, set_reference) are validated by Trace_Lifecycle, which instantiates Lifecycle with the class's table "
-            "and computes the warm-up predicate from its own counters, the documented parameters and harness-counted epoch facts.",
+            "and computes the warm-up predicate from its own counters, the documented parameters and harness-counted epoch facts. "
+            "Thorough tier, extra: Apa_Lifecycle (Apalache) discharges the inductive invariant of the contract (natural counters, since <= total, recommendation "
+            "range) for the six tables the real classes use - histories of any length - with a negative control that must be refuted.",
             TRUST + "epoch facts (errors / test batches of the epoch, labels given, window length before a cut) are counted by the harness from the inputs it fed.",
             "TLA+ spec + TLC refinement checking + TLC trace validation of recorded executions", "5/C01"),
     "C02": ("Model level: in MC_DDM / MC_EDDM / MC_STEPD / MC_PageHinkley / MC_Cusum a second instance is re-initialised after every drift "
@@ -72,7 +74,8 @@ CHECKS = {
             "(lifecycle refinement, first-warning / run-start semantics of retraining_recs, window definition, restarted-twin equality). "
             "Conformance: all 2^9 (quick) / 2^13 (thorough) sequences and long piecewise-stationary streams are executed on the real classes "
             "and every update's state, counters, recs (and STEPD's accuracies) validated by TLC against the same Step actions. "
-            "Sabotaged copies must be rejected.",
+            "Epochs of 100 000+ correct predictions are folded into one trace event by STEPD.Quiet, whose closed form MC_STEPD.QuietIsStep checks "
+            "against Step on every reachable quiet state. Sabotaged copies must be rejected.",
             TRUST + "standard normal quantiles for STEPD from scipy.stats.norm.ppf.",
             "TLA+ spec + TLC model checking + TLC trace validation of recorded executions", "5/C05"),
     "C06": ("LFR.tla: confusion matrix of the epoch (pseudo-counts), the four rates as integer pairs, changed-only exponentially weighted "
@@ -83,7 +86,7 @@ CHECKS = {
             "every cell sequence of length 4/6 and regime-changing streams on the real class: TLC recomputes cells, statistics, schedule and "
             "decision at each step from the bounds the implementation used, requires a key's first bounds inside an independent 20000-draw "
             "bracket (exact Beta bounds for its order statistics) and identical bounds on every later use.",
-            TRUST + "_bounds / _r_stat / _confusion are optional private reads; parallelize=False.",
+            TRUST + "_bounds / _r_stat / _confusion are optional private reads; parallelize=True only with at most one tracked rate (one job, no concurrency).",
             "TLA+ spec + TLC model checking + TLC trace validation with bracketed stochastic bounds", "5/C06"),
     "C07": ("HDM.tla: exact integer histograms on the common range with floor(sqrt(reference size)) bins, Hellinger / Jensen-Shannon / a user "
             "divergence, feature average, epsilon, bootstrapped-first-epsilon bookkeeping, running mean / deviation, t- or k-sigma threshold, "
